@@ -27,6 +27,9 @@ pub enum WDec {
     /// accept the buffer, but first run another operation of the crate on this thread, from
     /// inside the call (a sink that itself serialises a value - a logging or tee writer)
     Reenter,
+    /// the writer panics (an assertion inside the caller's `Write` impl); the caller isolates
+    /// the panic with `catch_unwind` and carries on using the thread
+    Panic,
     /// the process dies inside this call: `keep_call` bytes of this buffer reach the medium,
     /// then of everything not yet made durable only the first `keep_tail` bytes survive
     Crash { keep_call: usize, keep_tail: usize },
@@ -64,6 +67,8 @@ pub enum FDec {
     /// accept the fragment, but first print another value on this thread from inside the call
     /// (a formatter sink that itself formats a value)
     Reenter,
+    /// the sink panics; the caller catches the panic and carries on using the thread
+    Panic,
 }
 
 /// How the stored text is handed to `Deserialize`.
@@ -370,6 +375,8 @@ pub struct FaultCfg {
     pub w_reenter: u32,
     pub r_reenter: u32,
     pub f_reenter: u32,
+    pub w_panic: u32,
+    pub f_panic: u32,
 }
 
 impl FaultCfg {
@@ -437,6 +444,12 @@ impl FaultCfg {
             c.w_reenter = *rng.pick(&[20u32, 60, 120]);
             c.r_reenter = *rng.pick(&[20u32, 60]);
             c.f_reenter = *rng.pick(&[20u32, 60, 120]);
+        }
+        if rng.below(6) == 0 {
+            c.w_panic = *rng.pick(&[6u32, 12, 24]);
+        }
+        if rng.below(6) == 0 {
+            c.f_panic = *rng.pick(&[10u32, 30, 60]);
         }
         c.flips = match rng.below(8) {
             0 => 1,
